@@ -173,6 +173,7 @@ def drive(case: dict, float_mode: bool = False) -> dict:
 
     ext: list[tuple[float, int, str]] = sorted(
         [(unit(r), 0, 'reset') for r in case.get('resets', [])] +
+        [(unit(r), 0, 'noise') for r in case.get('noise', [])] +
         ([(unit(case['stop']), 1, 'stop')] if case.get('stop') is not None else []))
     horizon = unit(case['horizon'])
     # race stream (monitor only): an essential change injected `k` loop iterations INTO instant t
@@ -197,12 +198,72 @@ def drive(case: dict, float_mode: bool = False) -> dict:
             memory.idle_reset_time = unit(case.get('irt0', 0))
             memory.live_fresh_body = body
 
+            # ---- essential changes reach the timer the way they do in the operator: a watch/listing event of the
+            # object goes through the REAL processing._detect_causes (reset = bool(diff of the essence against the
+            # last-handled one)) and the REAL processing.process_spawning_cause (which bumps idle_reset_time).
+            from kopf._core.engines import indexing
+            from kopf._core.intents import registries
+            from kopf._core.reactor import inventory, processing
+            registry = registries.OperatorRegistry()
+            registry._spawning.append(handler)
+            indexers = indexing.OperatorIndexers()
+            rmemory = inventory.ResourceMemory()
+            rmemory.daemons_memory = memory
+            placeholder = daemons.Daemon(task=loop.create_future(), logger=_LOG, handler=handler, stopper=stopper)
+            memory.running_daemons[handler.id] = placeholder      # the timer under test IS the spawned one
+            etypes = case.get('etypes') or ['MODIFIED']
+            world = {'n': 0, 'rv': 0, 'ann': {}, 'k': 0}
+            obs['reset_flags'] = []
+
+            def world_body() -> dict:
+                return {'apiVersion': 'kopf.dev/v1', 'kind': 'KopfExample',
+                        'metadata': {'name': 'obj', 'namespace': 'ns', 'uid': 'u1', 'resourceVersion': str(world['rv']),
+                                     'annotations': dict(world['ann'])},
+                        'spec': {'n': world['n']}, 'status': {'observed': world['rv']}}
+
+            def remember_handled() -> None:
+                # what a finished handling cycle leaves on the object: the last-handled essence
+                b = bodies.Body(world_body())
+                ess = settings.persistence.diffbase_storage.build(body=b, extra_fields=set())
+                p = patches.Patch({})
+                settings.persistence.diffbase_storage.store(body=b, patch=p, essence=ess)
+                world['ann'].update(p.get('metadata', {}).get('annotations', {}))
+
+            remember_handled()
+
+            def feed(essential: bool) -> None:
+                evtype = etypes[world['k'] % len(etypes)]
+                world['k'] += 1
+                world['rv'] += 1
+                if essential:
+                    world['n'] += 1           # the harness edits the spec: an essential change
+                raw = world_body()
+                b = bodies.Body(raw)
+                found = processing._detect_causes(
+                    indexers=indexers, registry=registry, settings=settings, resource=resource,
+                    raw_event={'type': evtype, 'object': raw}, body=b, patch=patches.Patch({}),  # type: ignore[typeddict-item]
+                    memory=rmemory, local_logger=_LOG, event_logger=_LOG)
+                sc = found[1]
+                obs['reset_flags'].append([evtype, bool(essential), bool(sc.reset)])
+                coro = processing.process_spawning_cause(registry=registry, settings=settings, memory=rmemory,
+                                                         cause=sc, operator_paused=None)
+                try:
+                    coro.send(None)
+                except StopIteration:
+                    pass
+                else:
+                    coro.close()
+                    raise RuntimeError('observation point changed: process_spawning_cause suspended')
+                if essential:
+                    remember_handled()
+
             def inject(upto: float) -> None:
                 while ext and ext[0][0] <= upto:
                     t, _, kind = ext.pop(0)
                     if kind == 'reset':
-                        # what process_spawning_cause does on cause.reset
-                        memory.idle_reset_time = asyncio.get_running_loop().time()
+                        feed(True)
+                    elif kind == 'noise':
+                        feed(False)
                     else:
                         stopper.set(reason=stoppers.DaemonStoppingReason.OPERATOR_EXITING)
 
@@ -214,6 +275,7 @@ def drive(case: dict, float_mode: bool = False) -> dict:
             loop.advance_to(spawn)
             inject(spawn)
             task = loop.spawn(daemons._timer(settings=settings, handler=handler, memory=memory, cause=cause))
+            memory.running_daemons[handler.id] = daemons.Daemon(task=task, logger=_LOG, handler=handler, stopper=stopper)
             try:
                 while True:
                     loop.settle()
@@ -246,7 +308,7 @@ def drive(case: dict, float_mode: bool = False) -> dict:
                         while steps < k < ALL_STEPS and (loop.has_ready() or loop.due()):
                             loop.step()
                             steps += 1
-                        memory.idle_reset_time = asyncio.get_running_loop().time()
+                        feed(True)
                         st['seq'] += 1
                         obs['late'].append([conv(t), st['seq'], steps])
             except vloop.Stall:
